@@ -88,7 +88,7 @@ def gen_text(rng):
     out = []
     for _ in range(rng.choice([1, 1, 1, 2])):
         c = gen_chunk(rng)
-        if rng.random() < 0.15 and "]]>" not in c:
+        if rng.random() < 0.15 and "]]>" not in c and "\r" not in c:
             out.append("<![CDATA[" + c + "]]>")
         else:
             out.append(esc_text(rng, c))
@@ -96,7 +96,9 @@ def gen_text(rng):
 
 
 def gen_comment(rng):
-    body = X.rand_text(rng, maxlen=6).replace("--", "- -")
+    body = X.rand_text(rng, maxlen=6).replace("\r", " ")   # a raw CR would be normalised by the parsers
+    while "--" in body:
+        body = body.replace("--", "- -")
     if body.endswith("-"):
         body += " "
     return "<!--" + body + "-->"
@@ -271,10 +273,6 @@ def cmp_chain(a, b, path="/"):
     return None
 
 
-def alias_free_cr(doc):
-    return True
-
-
 def has_default_ns(raw):
     return any(k == "xmlns" for k, _ in raw["attrs"]) or any(has_default_ns(k) for k in raw["kids"])
 
@@ -363,8 +361,6 @@ def run(ctx):
             if not in_class:
                 NL.reset_store()
                 continue
-            if not alias_free_cr(doc):
-                pass
             mcases.append("(" + cases[-1][1:-1] + ", " + want + ")")
             mmeta.append(meta[-1])
             # (S) the statement
